@@ -80,9 +80,9 @@ theorem joinGet_shadowed (c : List JObj) (cs : List (List JObj)) (k : Key) (o : 
     (h : jget c k = some o) : joinGet (c :: cs) k = some o.tok := by
   rw [joinGet_first_wins]; simp [joinGetSpec, h]
 
-example : joinGet [[⟨"n/k", "n", "from-c0"⟩], [⟨"n/k", "n", "from-c1"⟩, ⟨"n/m", "n", "only-c1"⟩]] "n/k"
+example : joinGet [[{ key := "n/k", ns := "n", tok := "from-c0" }], [{ key := "n/k", ns := "n", tok := "from-c1" }, { key := "n/m", ns := "n", tok := "only-c1" }]] "n/k"
     = some "from-c0" := by decide
-example : (joinLookup [[⟨"n/k", "n", "from-c0"⟩], [⟨"n/k", "n", "from-c1"⟩, ⟨"n/m", "n", "only-c1"⟩]] "n").length
+example : (joinLookup [[{ key := "n/k", ns := "n", tok := "from-c0" }], [{ key := "n/k", ns := "n", tok := "from-c1" }, { key := "n/m", ns := "n", tok := "only-c1" }]] "n").length
     = 2 := by decide
 
 end IstioModel.C16
